@@ -82,7 +82,9 @@ theorem lt_iff_not_le' {a b : α} : a < b ↔ ¬ b ≤ a := by grind
 theorem strictInc_getElem_lt {arr : List α} (hinc : StrictInc arr) {i j : Nat} (hij : i < j) (hj : j < arr.length) :
     arr[i] < arr[j] := List.pairwise_iff_getElem.1 hinc i j (by omega) hj hij
 
-theorem bin1dLoop_spec (guess : Nat → Nat → Int) (val : α) (arr : List α) (hg : GuessOKAt arr val guess)
+/-- the loop invariant `lo ≤ countLE ≤ hi + 1` is kept by every branch, **whatever the guess is**
+(after the fix of notes/C06_defect_3: a guess at or beyond a bound moves that bound by one) -/
+theorem bin1dLoop_correct (guess : Nat → Nat → Int) (val : α) (arr : List α)
     (hinc : StrictInc arr) :
     ∀ (n lo hi : Nat), hi - lo = n → lo ≤ hi → hi < arr.length → lo ≤ countLE arr val →
       countLE arr val ≤ hi + 1 → bin1dLoop guess val arr lo hi = .ok ((countLE arr val : Int) - 1) := by
@@ -136,17 +138,11 @@ theorem bin1dLoop_spec (guess : Nat → Nat → Int) (val : α) (arr : List α) 
             congr 1; omega
           · simp only [h2, if_false]
             have hhik := (not_congr khi).1 h2
-            have hlv : arr[lo] < val := by grind
-            have hvh : val < arr[hi] := lt_iff_not_le'.2 h2
-            have hgl := (hg lo hi hhi (by omega) hlv hvh).1
-            have hgh := (hg lo hi hhi (by omega) hlv hvh).2
-            have hnot : ¬ (guess lo hi < (lo : Int) ∨ (hi : Int) < guess lo hi) := by omega
-            simp only [hnot, if_false]
-            by_cases c1 : (lo : Int) = guess lo hi
+            by_cases c1 : guess lo hi ≤ (lo : Int)
             · simp only [c1, if_true]
               exact ih (hi - (lo + 1)) (by omega) (lo + 1) hi rfl (by omega) hhi (by omega) hk2
             · simp only [c1, if_false]
-              by_cases c2 : (hi : Int) = guess lo hi
+              by_cases c2 : (hi : Int) ≤ guess lo hi
               · simp only [c2, if_true]
                 exact ih (hi - 1 - lo) (by omega) lo (hi - 1) rfl (by omega) (by omega) hk1 (by omega)
               · simp only [c2, if_false]
@@ -160,6 +156,13 @@ theorem bin1dLoop_spec (guess : Nat → Nat → Int) (val : α) (arr : List α) 
                 · simp only [c3, if_false]
                   have := kg.1 (by rw [lt_iff_not_le'] at c3; exact Classical.not_not.1 c3)
                   exact ih (hi - (guess lo hi).toNat) (by omega) _ hi rfl (by omega) hhi (by omega) hk2
+/-- (kept for the files that use it: the hypothesis on the guess is no longer needed) -/
+theorem bin1dLoop_spec (guess : Nat → Nat → Int) (val : α) (arr : List α) (_hg : GuessOKAt arr val guess)
+    (hinc : StrictInc arr) :
+    ∀ (n lo hi : Nat), hi - lo = n → lo ≤ hi → hi < arr.length → lo ≤ countLE arr val →
+      countLE arr val ≤ hi + 1 → bin1dLoop guess val arr lo hi = .ok ((countLE arr val : Int) - 1) :=
+  bin1dLoop_correct guess val arr hinc
+
 end Order
 
 variable {β : Type}
@@ -553,7 +556,7 @@ end Cells
 section Totality
 variable {α : Type} [LT α] [LE α] [DecidableLT α] [DecidableLE α] [DecidableEq α]
 
-theorem bin1dLoop_total (guess : Nat → Nat → Int) (val : α) (arr : List α) (hg : GuessOK guess) :
+theorem bin1dLoop_total (guess : Nat → Nat → Int) (val : α) (arr : List α) (_hg : GuessOK guess) :
     ∀ (n lo hi : Nat), hi - lo = n → lo ≤ hi → hi < arr.length →
       ∃ r, bin1dLoop guess val arr lo hi = .ok r ∧ (lo : Int) - 1 ≤ r ∧ r ≤ (hi : Int) := by
   intro n
@@ -577,11 +580,7 @@ theorem bin1dLoop_total (guess : Nat → Nat → Int) (val : α) (arr : List α)
         · exact ⟨_, rfl, by omega, by omega⟩
         · split
           · exact ⟨_, rfl, by omega, by omega⟩
-          · have hgl := (hg lo hi hle).1
-            have hgh := (hg lo hi hle).2
-            have hnot : ¬ (guess lo hi < (lo : Int) ∨ (hi : Int) < guess lo hi) := by omega
-            simp only [hnot, if_false]
-            split
+          · split
             · obtain ⟨r, h, h1, h2⟩ := ih (hi - (lo + 1)) (by omega) (lo + 1) hi rfl (by omega) hhi
               exact ⟨r, h, by omega, h2⟩
             · split
